@@ -1,7 +1,9 @@
 import Driver.C20
+import Driver.C16
 import Driver.C14
 import Driver.C09
 import Driver.C07
+import Driver.C11
 /-! `ccdriver`: one operation per input line (`<module> <op> args…`), one result line out:
 `model<TAB>spec`. Stateless modules are dispatched directly; stateful modules keep their state
 in `St`. -/
@@ -11,13 +13,16 @@ structure St where
   c14 : C14.State := {}
   c09 : C09.State := {}
   c07 : C07.State := {}
+  c11 : C11.State := {}
 
 def step (st : St) (line : String) : St × String :=
   match (line.trimAscii.toString.splitOn " ").filter (· ≠ "") with
   | "c20" :: rest => (st, C20.handle rest)
+  | "c16" :: rest => (st, C16.handle rest)
   | "c14" :: rest => let (s, o) := C14.step st.c14 rest; ({ st with c14 := s }, o)
   | "c09" :: rest => let (s, o) := C09.step st.c09 rest; ({ st with c09 := s }, o)
   | "c07" :: rest => let (s, o) := C07.step st.c07 rest; ({ st with c07 := s }, o)
+  | "c11" :: rest => let (s, o) := C11.step st.c11 rest; ({ st with c11 := s }, o)
   | _ => (st, "bad-op\tn/a")
 
 partial def loop (h : IO.FS.Stream) (out : IO.FS.Stream) (st : St) : IO Unit := do
